@@ -186,14 +186,32 @@ func PointerCase(r *rand.Rand, name string, o DefaultOpts) (*Case, bool) {
 		ty.Decls = append(ty.Decls, sd, td)
 		sl, tl = Named(sd), Named(td)
 	}
+	// leaves of IDENTICAL type under skipCopySameType: the value itself is passed through and, for T -> *T,
+	// the emitted code must still point to a copy per element / entry
+	skip := r.Intn(3) == 0
+	sliceLeaf := false
+	if skip {
+		if structLeaf {
+			tl = sl
+		} else if r.Intn(2) == 0 {
+			sl, tl = Slice(Basic("int")), Slice(Basic("int"))
+			sliceLeaf = true
+		}
+	}
 	wrap := func(t *Type, n int) *Type {
 		for i := 0; i < n; i++ {
 			t = Ptr(t)
 		}
 		return t
 	}
+	if skip && r.Intn(2) == 0 {
+		a, b = 0, 1+r.Intn(2) // T -> *T / **T of a passed-through value
+	}
 	sx, tx := wrap(sl, a), wrap(tl, b)
 	pos := []string{"top", "field", "elem", "mapval"}[r.Intn(4)]
+	if skip && r.Intn(2) == 0 {
+		pos = "mapval"
+	}
 	level := []string{"none", "cli", "conv", "meth"}[r.Intn(4)]
 	var sT, tT *Type
 	switch pos {
@@ -225,6 +243,10 @@ func PointerCase(r *rand.Rand, name string, o DefaultOpts) (*Case, bool) {
 	case "meth":
 		methLines = append(methLines, "useZeroValueOnPointerInconsistency")
 		flags.UseZero = true
+	}
+	if skip {
+		convLines = append(convLines, "skipCopySameType")
+		flags.SkipCopy, convFlags.SkipCopy = true, true
 	}
 	// does the value in effect reach the position? generated sub-methods see the converter level only
 	effective := flags.UseZero
@@ -261,6 +283,10 @@ func PointerCase(r *rand.Rand, name string, o DefaultOpts) (*Case, bool) {
 	c.Feature("pos", pos)
 	c.Feature("level", level)
 	c.Feature("leaf", map[bool]string{true: "struct", false: "int"}[structLeaf])
+	if sliceLeaf {
+		c.Feature("leaf", "slice")
+	}
+	c.Feature("skipcopy", fmt.Sprint(skip))
 	c.Feature("format", o.Format)
 	if !judge {
 		c.Feature("nojudge", "true")
